@@ -5,7 +5,7 @@
 cd /verif
 PASS=0; FAIL=0
 for d in seeded/${1:-}*/; do
-  n=$(basename $d); id=${n%%-*}
+  n=$(basename $d); id=${n:0:3}
   extra=$(python3 -c "
 import json,re;m=json.load(open('$d/meta.json'));print(' '.join(sorted(set(re.findall(r'C\d\d', m['caught_by'].get('after',''))) - {'$id'})))")
   # C09's deciding check for this seed is the free-running supplement; it needs the full run
